@@ -23,7 +23,12 @@ for id in $ids; do
   hit=0; tot=0
   for f in $fs; do
     tot=$((tot+1))
-    VERIF_ROOT=/tmp/regress_root /verif/.build/release/nutsim replay $f >/dev/null 2>&1; [ $? -eq 1 ] && hit=$((hit+1))
+    # (a few attempts: C10-b is detected through real threads of rayon's global pool, see DESIGN 0.3)
+    for attempt in 1 2 3 4 5; do
+      VERIF_ROOT=/tmp/regress_root /verif/.build/release/nutsim replay $f >/dev/null 2>&1
+      if [ $? -eq 1 ]; then hit=$((hit+1)); break; fi
+      [ "$id" != "C10-b" ] && break
+    done
   done
   git -C /repo checkout -- .
   if [ $hit -eq 0 ]; then echo "MISSED $id: none of $tot replay file(s) reproduces with the change applied"; bad=1; else echo "ok $id: $hit/$tot replay file(s) reproduce"; fi
